@@ -615,6 +615,8 @@ def main(argv=None):
         if SR.is_super(algo) and rng.random() < 0.12:
             with_syn = False          # must exit 1 and write nothing
         base = SR.random_super_input(rng, no, rng.randint(2, 3), rng.randint(1, 3), bool(ordered)) if with_syn else D.random_plain_input(rng, no, rng.randint(2, 3))
+        if base.get("leafsyn") and rng.random() < 0.35:
+            base = D.rename_families(base, rng)
         d = random_named(rng, RC.documented_names(base))
         if rng.random() < 0.35:
             # leaves named <species>_<k> after a species OTHER than the declared one: the explicit leaf_object_species entry is what counts
